@@ -5,6 +5,7 @@ import (
 	"encoding/json"
 	"flag"
 	"fmt"
+	"math"
 	"os"
 	"os/exec"
 	"path/filepath"
@@ -314,7 +315,10 @@ func modelToWitness(cfg *PropConfig, hr *HarnessResult, o *Obligation, model map
 		lit, ok := model["in_"+iv.Name]
 		var v uint64
 		if ok {
-			v, _ = modelValue(lit)
+			var parsed bool
+			if v, parsed = modelValue(lit); !parsed {
+				fmt.Printf("WARNING unparsed model value for %s: %s\n", iv.Name, lit)
+			}
 		}
 		w.Inputs[iv.Name] = fmt.Sprintf("%d", v)
 		switch iv.Kind {
@@ -324,6 +328,8 @@ func modelToWitness(cfg *PropConfig, hr *HarnessResult, o *Obligation, model map
 			w.Pretty[iv.Name] = fmt.Sprintf("%d", int32(v))
 		case "bool":
 			w.Pretty[iv.Name] = fmt.Sprintf("%v", v != 0)
+		case "float64":
+			w.Pretty[iv.Name] = fmt.Sprintf("%g", math.Float64frombits(v))
 		case "str":
 			if int(v) < len(iv.Alts) {
 				w.Pretty[iv.Name] = fmt.Sprintf("%q", iv.Alts[v])
@@ -412,6 +418,7 @@ func main() {
 	dump := flag.Bool("dump", false, "dump failing queries")
 	jobs := flag.Int("j", 14, "solver workers")
 	cpuprof := flag.String("cpuprofile", "", "write a CPU profile of the engine")
+	loadOnly := flag.Bool("loadonly", false, "only load and type-check the harness overlay, write no evidence")
 	flag.Parse()
 	if *cpuprof != "" {
 		f, err := os.Create(*cpuprof)
@@ -475,10 +482,15 @@ func main() {
 	prog, pkgs := loadProgram(&cfg, g)
 	loadMS := time.Since(loadStart).Milliseconds()
 	fmt.Printf("loaded %d packages, SSA built in %d ms\n", len(pkgs), loadMS)
+	if *loadOnly {
+		fmt.Println("load ok (harnesses compile against the current tree)")
+		os.Exit(0)
+	}
 	matchRe := regexp.MustCompile(cfg.Match)
 	var onlyRe *regexp.Regexp
 	if *only != "" {
 		onlyRe = regexp.MustCompile(*only)
+		partialRun = true
 	}
 	solverName := cfg.Solver
 	if solverName == "" {
